@@ -26,6 +26,7 @@ type C09Case struct {
 	Coop   *wire.Coop `json:"interleaving,omitempty"`
 	Real   bool       `json:"real_goroutines,omitempty"`
 	Fresh  bool       `json:"fresh_vs_long_lived,omitempty"`
+	Heavy  bool       `json:"heavy_concurrent,omitempty"`
 	Copies int        `json:"copies,omitempty"`
 }
 
@@ -110,6 +111,7 @@ type c09Runner struct {
 	e     *Env
 	pool  *libsim.Pool
 	race  *libsim.Pool
+	stock *libsim.Pool
 	world string
 }
 
@@ -280,7 +282,95 @@ func (c *c09Runner) judgeFresh(cs *C09Case, run int64) (*c09Obs, bool, error) {
 	return nil, false, nil
 }
 
+// heavyFiles are hand-shaped inputs whose evaluation takes long enough for
+// real goroutines to overlap for a long time (expensive documents are where
+// per-process budgets, counters and pools are most likely to interact).
+func heavyFiles(r *gen.Rand, shape int) (map[string]string, string) {
+	switch shape % 3 {
+	case 0:
+		// YAML alias amplification: 7 lines, several hundred thousand nodes
+		rep := func(name string, n int) string {
+			parts := make([]string, n)
+			for i := range parts {
+				parts[i] = "*" + name
+			}
+			return "[" + strings.Join(parts, ", ") + "]"
+		}
+		top := r.Range(3, 7)
+		y := "a: &a [x, x, x, x, x, x, x, x, x, x]\n" +
+			"b: &b " + rep("a", 10) + "\n" +
+			"c: &c " + rep("b", 10) + "\n" +
+			"d: &d " + rep("c", 10) + "\n" +
+			"e: &e " + rep("d", 10) + "\n" +
+			"f: " + rep("e", top) + "\n"
+		return map[string]string{"heavy.yaml": y}, "heavy.yaml"
+	case 1:
+		// a very wide document
+		var b strings.Builder
+		n := r.Range(20000, 60000)
+		for i := 0; i < n; i++ {
+			fmt.Fprintf(&b, "k%06d: {v: %d, s: \"str%d\"}\n", i, i%97, i%13)
+		}
+		return map[string]string{"heavy.yaml": b.String()}, "heavy.yaml"
+	default:
+		// many documents with references and repeats
+		var b strings.Builder
+		n := r.Range(200, 600)
+		for i := 0; i < n; i++ {
+			if i > 0 {
+				b.WriteString("---\n")
+			}
+			fmt.Fprintf(&b, "name: d%d\ntmpl: {a: %d, l: [1, 2, 3]}\nuse: {$merge: tmpl, b: 2}\nr:\n- {$repeat: 3, i: $repeat}\ns: $\"n={name}\"\n", i, i)
+		}
+		return map[string]string{"heavy.yaml": b.String()}, "heavy.yaml"
+	}
+}
+
+// judgeHeavy: sub-check 7 — four real goroutines evaluating an expensive
+// input at once (stock library, no race detector: this is about results, not
+// about memory accesses), against the same evaluations one after another.
+func (c *c09Runner) judgeHeavy(cs *C09Case, run int64) (*c09Obs, bool, error) {
+	dir, cleanup, err := c.dir(cs.Files, "heavy", run)
+	if err != nil {
+		return nil, false, err
+	}
+	defer cleanup()
+	mk := func(real bool) *wire.Request {
+		req := &wire.Request{Run: run, Sched: wire.Sched{Mode: "Native"}, Cwd: dir, Env: stdEnv, Real: real}
+		for k := 0; k < cs.Copies; k++ {
+			req.Tasks = append(req.Tasks, wire.TaskSpec{Ops: cs.Tasks[0]})
+		}
+		return req
+	}
+	seq, err := c.stock.Exec(mk(false))
+	if err != nil {
+		return nil, false, err
+	}
+	if seq.Crash {
+		return nil, true, nil
+	}
+	par, err := c.stock.Exec(mk(true))
+	if err != nil {
+		return nil, false, err
+	}
+	if par.Crash {
+		return &c09Obs{Clause: "goroutine-dependent-result", Got: "worker died: " + libsim.CrashKind(par.Stderr), Want: "as in the sequential run", Stderr: short(par.Stderr, 2000)}, false, nil
+	}
+	for i := range seq.Tasks {
+		a, _ := evalSig(cs.Tasks[0], taskOutcome{Ops: seq.Tasks[i], CrashAt: -1})
+		b, _ := evalSig(cs.Tasks[0], taskOutcome{Ops: par.Tasks[i], CrashAt: -1})
+		if j, d := sigDiff(a, b); d {
+			return &c09Obs{Clause: "goroutine-dependent-result", Task: i, Op: j, Got: short(at(b, j), 300), Want: short(at(a, j), 300)}, false, nil
+		}
+	}
+	return nil, false, nil
+}
+
 func (c *c09Runner) judge(cs *C09Case, tag string, run int64) (*c09Obs, bool, *wire.Result, error) {
+	if cs.Heavy {
+		o, skip, err := c.judgeHeavy(cs, run)
+		return o, skip, nil, err
+	}
 	if cs.Fresh {
 		o, skip, err := c.judgeFresh(cs, run)
 		return o, skip, nil, err
@@ -408,8 +498,14 @@ func RunC09(e *Env) (int, error) {
 	}
 	c.race = libsim.NewPool(e.Tree.Worker("race"), raceWorkers, 0, "GORACE=halt_on_error=1 exitcode=66")
 	defer c.race.Close()
+	c.stock = libsim.NewPool(e.Tree.Worker("stock"), 2, 0)
+	defer c.stock.Close()
 
 	n := e.N(2500, 25000)
+	heavyEvery := n / int64(e.Pick(2, 10))
+	if heavyEvery < 1 {
+		heavyEvery = 1
+	}
 	K := e.Pick(6, 24)
 	coopEvery := int64(4)
 	freshEvery := int64(e.Pick(8, 8))
@@ -519,6 +615,23 @@ func RunC09(e *Env) (int, error) {
 				}
 			}
 		}
+		// sub-check 7: expensive inputs in real goroutines
+		if run%heavyEvery == 3 {
+			files, input := heavyFiles(r.Fork(), int(run/heavyEvery))
+			cs := &C09Case{Files: files, Heavy: true, Copies: 4, Ref: wire.Sched{Mode: "Native"}, Other: wire.Sched{Mode: "Native"},
+				Tasks: [][]wire.Op{{{Op: "MergeFileLayers", Path: input}, {Op: "Output", Format: "json"}}}}
+			o, skipped, _, err := c.judge(cs, "heavy", run)
+			if err != nil {
+				return harness.RunResult{Err: err}
+			}
+			if !skipped {
+				ev.Eval("")
+				ev.Count("heavy_concurrent_batches", 1)
+				if o != nil {
+					return report(cs, "heavy", o)
+				}
+			}
+		}
 		// sub-check 5: real goroutines, -race
 		if run%realEvery == 0 && os.Getenv("VERIF_C09_NORACE") == "" {
 			cs := *base
@@ -565,6 +678,10 @@ func RunC09(e *Env) (int, error) {
 
 	finish := func(v *harness.Violation) (*harness.Violation, string) {
 		cs := v.Case.(*C09Case)
+		if cs.Heavy {
+			v.Note = "heavy real-goroutine sub-check: not schedule-controlled, reported as first observed"
+			return v, ""
+		}
 		o, _, _, err := c.judge(cs, "confirm", v.Run)
 		if err != nil || o == nil || o.Clause != v.Clause {
 			if cs.Real {
@@ -610,7 +727,7 @@ func RunC09(e *Env) (int, error) {
 func c09Known(c *C09Case) string { return "" }
 
 func init() {
-	for _, chk := range []string{"schedule", "interleaving", "goroutines", "history"} {
+	for _, chk := range []string{"schedule", "interleaving", "goroutines", "history", "heavy"} {
 		replayers["C09/"+chk] = func(e *Env, raw []byte) (string, any, error) {
 			var v struct {
 				Clause string  `json:"clause"`
@@ -625,6 +742,8 @@ func init() {
 			defer c.pool.Close()
 			c.race = libsim.NewPool(e.Tree.Worker("race"), 1, 0, "GORACE=halt_on_error=1 exitcode=66")
 			defer c.race.Close()
+			c.stock = libsim.NewPool(e.Tree.Worker("stock"), 1, 0)
+			defer c.stock.Close()
 			o, _, _, err := c.judge(&v.Case, "replay", v.Run)
 			if err != nil {
 				return "", nil, err
